@@ -121,8 +121,8 @@ MayRaise(e, nm) ==
              "nsi_newman_betweenness", "arenas_betweenness", "nsi_arenas_betweenness"}
 Unexpected(e) == {nm \in DOMAIN e.x : ~MayRaise(e, nm)}
 
-RECURSIVE FirstFail(_, _)
-FirstFail(cs, k) == IF k > Len(cs) THEN "" ELSE IF ~cs[k][2] THEN cs[k][1] ELSE FirstFail(cs, k + 1)
+\* the sites of all failing checks, joined by ";"
+AllFail(cs) == JoinSet({cs[k][1] : k \in {kk \in 1..Len(cs) : ~cs[kk][2]}})
 
 IsolatedNode(e) == \E k \in 1..e.n : \A j \in 1..e.n : e.A[k][j] = 0 /\ e.A[j][k] = 0
 Tags(e) == e.blk \o (IF e.directed = 1 THEN ",directed" ELSE "")
@@ -131,8 +131,8 @@ Tags(e) == e.blk \o (IF e.directed = 1 THEN ",directed" ELSE "")
            \o (IF \A a \in 1..e.n : \A b \in 1..e.n : e.A[a][b] = 0 THEN ",edgeless" ELSE "")
 Verdict(e) ==
   IF Unexpected(e) # {}
-  THEN LET nm == CHOOSE x \in Unexpected(e) : TRUE IN <<"REJECT", "Applicable", nm \o ":" \o e.x[nm], Tags(e)>>
-  ELSE LET f == FirstFail(Checks(e), 1) IN
+  THEN <<"REJECT", "Applicable", JoinSet({nm \o ":" \o e.x[nm] : nm \in Unexpected(e)}), Tags(e)>>
+  ELSE LET f == AllFail(Checks(e)) IN
        IF f # "" THEN <<"REJECT", "Def", f, Tags(e)>> ELSE <<"ACCEPT", "", "", Tags(e)>>
 
 \* all verdicts, evaluated once at constant level (TLC caches LET definitions only there)
